@@ -10,6 +10,7 @@ rc=0
 for id in "$@"; do
   for d in seeded/$id*/; do
     n=$(basename $d)
+    [ -f $d/RETIRED ] && { echo "$n: retired ($(head -c 80 $d/RETIRED)...)"; continue; }
     cp evidence/$id.json /tmp/seed-recheck-ev.json 2>/dev/null
     git -C /repo apply /verif/$d/patch.diff || { echo "$n: PATCH DOES NOT APPLY"; rc=1; continue; }
     ./check $id quick > /tmp/seed-recheck-out.txt 2>&1; r=$?
